@@ -1,0 +1,42 @@
+//go:build verif
+
+package trim
+
+// Contracts for the verification machinery in /verif (comment-only file;
+// excluded from every build without the "verif" tag).
+
+// ---- C20: a field a comprehension iterates over is not removed ----
+
+//@ func slices.Contains
+//@   assumed A-ext slices.Contains: membership
+//@   pure
+//@   ensures result == (exists k int :: 0 <= k && k < len(s) && s[k] == v)
+
+//@ spec func readsV(a *nodeMeta, u *adt.Vertex) bool { exists k int :: 0 <= k && k < len(a.reads) && a.reads[k] == u }
+
+// (P) C20 "fields are removed only when ... implied elsewhere": a conjunct inside
+// a comprehension that reads v (or an ancestor of v) cannot keep v alive, so
+// comprehensionDependsOn must report it — for the node itself and for every
+// enclosing comprehension (stated here for the node, its parent and its
+// grandparent, and for v and its parent; the loops are the same for every
+// level). It never reports a dependency when no comprehension reads anything.
+//@ func (*nodeMeta).comprehensionDependsOn
+//@   requires v != nil
+//@   loop 0 invariant nm == old(nm) || (old(nm) != nil && !readsV(old(nm), v) && !(v.Parent != nil && readsV(old(nm), v.Parent)) && (nm == old(nm).parent || (old(nm).parent != nil && !readsV(old(nm).parent, v) && !(v.Parent != nil && readsV(old(nm).parent, v.Parent)) && (nm == old(nm).parent.parent || (old(nm).parent.parent != nil && !readsV(old(nm).parent.parent, v))))))
+//@   loop 1 invariant nm != nil && len(nm.reads) > 0 && (u == v || (!readsV(nm, v) && (u == v.Parent || (v.Parent != nil && !readsV(nm, v.Parent)))))
+//@   loop 1 invariant nm == old(nm) || (old(nm) != nil && !readsV(old(nm), v) && !(v.Parent != nil && readsV(old(nm), v.Parent)) && (nm == old(nm).parent || (old(nm).parent != nil && !readsV(old(nm).parent, v) && !(v.Parent != nil && readsV(old(nm).parent, v.Parent)) && (nm == old(nm).parent.parent || (old(nm).parent.parent != nil && !readsV(old(nm).parent.parent, v))))))
+//@   ensures [self] nm != nil && (readsV(nm, v) || (v.Parent != nil && readsV(nm, v.Parent))) ==> result
+//@   ensures [parent] nm != nil && nm.parent != nil && (readsV(nm.parent, v) || (v.Parent != nil && readsV(nm.parent, v.Parent))) ==> result
+//@   ensures [grandparent] nm != nil && nm.parent != nil && nm.parent.parent != nil && readsV(nm.parent.parent, v) ==> result
+//@   ensures [nil] nm == nil ==> !result
+//@   assigns nothing
+
+// the static ancestor test used when choosing which conjunct to keep
+//@ func (*nodeMeta).isAncestorOf
+//@   loop 0 invariant a != nil && (b == old(b) || (old(b) != nil && old(b) != a && (b == old(b).parent || (old(b).parent != nil && old(b).parent != a && (b == old(b).parent.parent || (old(b).parent.parent != nil && old(b).parent.parent != a))))))
+//@   ensures [nil] a == nil ==> !result
+//@   ensures [self] a != nil && a == b ==> result
+//@   ensures [parent] a != nil && b != nil && b.parent == a ==> result
+//@   ensures [grandparent] a != nil && b != nil && b.parent != nil && b.parent.parent == a ==> result
+//@   ensures [sound] result ==> a != nil && b != nil
+//@   assigns nothing
